@@ -192,6 +192,8 @@ pub fn run_case(c: &Case) -> (String, String) {
     let mut any_remove = false;
     let mut cleared_since_draw = false;               // after MultiProgress::clear nothing need be shown until the next draw
     let mut order_ambiguous = false;                  // index-based insert while a dropped bar may or may not still count as a member
+    // every row a legitimate paint can have produced so far: the wrapped rows of every log line and of every rendering any bar has had
+    let mut legit: std::collections::HashSet<String> = std::collections::HashSet::new();
     for (k_op, op) in c.ops.iter().enumerate() {
         let flushes_before = rec.flushes();
         if std::env::var("VERIF_TRACE").is_ok() { eprintln!("op {k_op}"); }
@@ -260,9 +262,19 @@ pub fn run_case(c: &Case) -> (String, String) {
                 }
             }
         }
+        for b in bars.iter() {
+            for r in b.acceptable.iter().chain(b.finished_visible_render.iter()) { for l in r { for ch in wrap(l, w) { legit.insert(ch); } } }
+        }
         // ---- oracles on the screen after this operation (only meaningful once something was flushed)
         if verdict != "ok" || log_unjudged { continue; }
         let rows = rec.rows();
+        // C19 / C01: no foreign rows. Whatever the terminal height, the limiter and the alignment, every non-blank row on the screen
+        // (scrollback included) is a whole wrapped row of a printed line or of a rendering some bar has had; a row made of two
+        // renderings, a truncated or a shifted row is the mark of a frame that was painted over something it did not erase
+        for l in &logs { for ch in wrap(l, w) { legit.insert(ch); } }
+        if let Some(r) = rows.iter().find(|r| !crate::bar::plain(r).trim().is_empty() && !legit.contains(*r)) {
+            verdict = format!("FAIL C19 foreign-row op={k_op} {} row={r:?} screen={}", op.enc(), show_rows(&rows)); continue;
+        }
         // C03: every log line present exactly once, in order
         let mut at = 0usize;
         // trailing blank rows are invisible in a snapshot: blank log lines at the very end cannot be checked
